@@ -447,6 +447,73 @@ fn check_owned(v: &OwnedValue) -> Option<(String, String)> {
     None
 }
 
+/// the same runtime object referenced more than once (a DAG, no cycle): the owned form is the tree
+/// expansion, every reference carrying the full content
+fn check_shared(v: &OwnedValue) -> Option<(String, String)> {
+    let img = owned_image(v);
+    for shape in 0..4u32 {
+        let mut vm: Vm<()> = Vm::new(()).unwrap();
+        let val = match vm.insert_value(v) {
+            Ok(x) => x,
+            Err(e) => return Some(("shared:insert-error".into(), format!("{img}: {e}"))),
+        };
+        let mut root = vm.init_table().unwrap();
+        let mut mid = vm.init_table().unwrap();
+        let want = {
+            let rt = root.as_table_mut().unwrap();
+            match shape {
+                0 => {
+                    rt.insert(Value::Integer(0), val).unwrap();
+                    rt.insert(Value::Integer(1), val).unwrap();
+                    rt.insert(Value::Integer(2), val).unwrap();
+                    format!("{{0:{img},1:{img},2:{img}}}")
+                }
+                1 => {
+                    // as key and as value of one entry (nil keys are not hashable: skipped by the caller)
+                    rt.insert(val, val).unwrap();
+                    format!("{{{img}:{img}}}")
+                }
+                2 => {
+                    // at two depths
+                    mid.as_table_mut().unwrap().insert(Value::Integer(0), val).unwrap();
+                    rt.insert(Value::Integer(0), Value::Object(std::ptr::NonNull::from(&*mid))).unwrap();
+                    rt.insert(Value::Integer(1), val).unwrap();
+                    format!("{{0:{{0:{img}}},1:{img}}}")
+                }
+                _ => {
+                    // the middle table itself shared, holding the value twice
+                    mid.as_table_mut().unwrap().insert(Value::Integer(0), val).unwrap();
+                    mid.as_table_mut().unwrap().insert(Value::Integer(1), val).unwrap();
+                    let m = Value::Object(std::ptr::NonNull::from(&*mid));
+                    rt.insert(Value::Integer(0), m).unwrap();
+                    rt.insert(Value::Integer(1), m).unwrap();
+                    format!("{{0:{{0:{img},1:{img}}},1:{{0:{img},1:{img}}}}}")
+                }
+            }
+        };
+        let rootv = Value::Object(std::ptr::NonNull::from(&*root));
+        let owned = match OwnedValue::try_from(rootv) {
+            Ok(o) => o,
+            Err(_) => return Some(("shared:to-owned-error".into(), want)),
+        };
+        if owned_image(&owned) != want {
+            return Some(("shared:to-owned".into(), format!("shape {shape}: the owned form of {want} (one object referenced several times) is {}", owned_image(&owned))));
+        }
+        for fmt in FORMATS {
+            let back: OwnedValue = match round(fmt, &owned) {
+                Ok(b) => b,
+                Err(e) => return Some((format!("shared-{fmt}:roundtrip-error"), format!("{want}: {e}"))),
+            };
+            let mut vm2: Vm<()> = Vm::new(()).unwrap();
+            let again = vm2.insert_value(&back).ok().and_then(|x| OwnedValue::try_from(x).ok());
+            if again.as_ref().map(owned_image) != Some(want.clone()) {
+                return Some((format!("shared-{fmt}:value-differs"), format!("{want} became {:?} through {fmt} and a second VM", again.as_ref().map(owned_image))));
+            }
+        }
+    }
+    None
+}
+
 // ---- check ----------------------------------------------------------------------------------------
 
 static QUICK: OnceLock<Vec<Box<dyn Family>>> = OnceLock::new();
@@ -476,7 +543,7 @@ impl Check for C11 {
     fn info(&self, tier: Tier) -> CheckInfo {
         let fams = families(tier);
         CheckInfo {
-            rule: format!("(1) every module of the families {:?}: JSON and YAML -> back -> identical source, compile -> byte-identical program image (bytecode, data, labels, variable ids/names, version, trace); the compiled program through JSON / CBOR / bincode -> field-wise equal image and the same run (result, globals, host log, error trace). (2) programs with every count of globals 0..{n} and of extra cards 0..{n} (labels and trace entries cross every capacity step of the decoders) through the 3 formats: image + run incl. a late error whose trace needs the decoded tables. (3) HandleTable<u32>, CaoHashMap<u32,u32> and CaoHashMap<String,u32> with every entry count 0..{n} x 3 formats: len, get for present and absent keys, iteration, and every follow-up history of depth 2 over insert / remove / entry on the decoded object against a BTreeMap. (4) {} owned values of depth <= 2 over nil, ints, finite reals, strings, tables (also as keys): insert_value -> OwnedValue -> 3 formats -> insert_value into a second VM -> deep-equal with order. 'states' = distinct program images / cases", fams.iter().map(|f| format!("{}={}", f.name(), f.len())).collect::<Vec<_>>(), owned_universe().len(), n = counts(tier)),
+            rule: format!("(1) every module of the families {:?}: JSON and YAML -> back -> identical source, compile -> byte-identical program image (bytecode, data, labels, variable ids/names, version, trace); the compiled program through JSON / CBOR / bincode -> field-wise equal image and the same run (result, globals, host log, error trace). (2) programs with every count of globals 0..{n} and of extra cards 0..{n} (labels and trace entries cross every capacity step of the decoders) through the 3 formats: image + run incl. a late error whose trace needs the decoded tables. (3) HandleTable<u32>, CaoHashMap<u32,u32> and CaoHashMap<String,u32> with every entry count 0..{n} x 3 formats: len, get for present and absent keys, iteration, and every follow-up history of depth 2 over insert / remove / entry on the decoded object against a BTreeMap. (4) {} owned values of depth <= 2 over nil, ints, finite reals, strings, tables (also as keys): insert_value -> OwnedValue -> 3 formats -> insert_value into a second VM -> deep-equal with order; the same for roots in which one runtime object is referenced several times (three values of one table, key and value of one entry, at two depths, through a shared middle table): the owned form is the tree expansion. 'states' = distinct program images / cases", fams.iter().map(|f| format!("{}={}", f.name(), f.len())).collect::<Vec<_>>(), owned_universe().len(), n = counts(tier)),
             bound: format!("counts 0..{}", counts(tier)),
             exhaustive: true,
             assumptions: vec!["non-finite reals are excluded for JSON / YAML sources (format limitation)".into()],
@@ -547,6 +614,10 @@ impl Check for C11 {
                 for (i, v) in owned_universe().iter().enumerate() {
                     let r = check_owned(v);
                     report(out, r, json!({"owned": i}));
+                    if !matches!(v, OwnedValue::Nil) {
+                        let r = check_shared(v);
+                        report(out, r, json!({"shared": i}));
+                    }
                 }
                 out.outcome("owned values");
             }
@@ -565,6 +636,9 @@ impl Check for C11 {
         }
         if let Some(i) = case["owned"].as_u64() {
             return mk(check_owned(owned_universe().get(i as usize)?));
+        }
+        if let Some(i) = case["shared"].as_u64() {
+            return mk(check_shared(owned_universe().get(i as usize)?));
         }
         progcheck::replay(&JUDGE, case)
     }
